@@ -14,6 +14,26 @@ class Unsupported(Exception):
 
 PRIM_T = {"t_add", "t_mul", "t_smul", "t_sadd"}          # kernel primitives returning a tensor
 
+# logic._norm is mapped to "the Frobenius norm" by an argument outside the translator's grammar (clone, orthogonalize(0),
+# norm of the first core with its factor absorbed): the mapping is used only for exactly this body
+NORM_BODY = ("t = t.clone()\nt.orthogonalize(0)\ncore = t.cores[0]\nif t.Us[0] is not None:\n"
+             "    core = torch.einsum('ijk,aj->iak', (core, t.Us[0]))\nreturn torch.norm(core)")
+NORM_BODY_OK = {}
+
+
+def check_norm_body(repo):
+    try:
+        tree = ast.parse(open(os.path.join(repo, "tntorch", "logic.py")).read())
+        fn = [n for n in tree.body if isinstance(n, ast.FunctionDef) and n.name == "_norm"]
+        if len(fn) != 1 or [a.arg for a in fn[0].args.args] != ["t"]:
+            NORM_BODY_OK.update(ok=False, why="no single _norm(t)")
+            return
+        body = [x for x in fn[0].body if not (isinstance(x, ast.Expr) and isinstance(x.value, ast.Constant))]
+        txt = "\n".join(ast.unparse(x) for x in body)
+        NORM_BODY_OK.update(ok=(txt == NORM_BODY), why="body is now: " + txt[:200].replace("\n", " ; "))
+    except Exception as e:
+        NORM_BODY_OK.update(ok=False, why=repr(e)[:100])
+
 
 def qname(f):
     if isinstance(f, ast.Attribute) and isinstance(f.value, ast.Name):
@@ -58,7 +78,11 @@ class Tr:
         n = qname(f)
         if n == "_norm" and len(e.args) == 1 and not e.keywords:
             # logic._norm: the Frobenius norm computed on an orthogonalised copy (tensor unchanged and norm = norm of the
-            # first core by C13_orthogonalize / C13_norm); translated as the norm it computes
+            # first core, its Tucker factor absorbed, by C13_orthogonalize / C13_norm); translated as the norm it
+            # computes - but only while its body is the one that argument was made for
+            if not NORM_BODY_OK.get("ok"):
+                raise Unsupported("logic._norm no longer has the body whose meaning (the Frobenius norm) rests on "
+                                  "C13_orthogonalize / C13_norm: " + NORM_BODY_OK.get("why", "not found"))
             n = "tn.norm"
         if n == "tn.norm" and len(e.args) == 1 and "tn.norm" in self.defined:
             pass
@@ -405,6 +429,7 @@ def find_fn(tree, cls, name):
 
 
 def main(repo, outdir):
+    check_norm_body(repo)
     trees = {}
     lines = [HEADER]
     defined = {}
